@@ -95,6 +95,9 @@ def run_sens(ctx, n):
     res = vlib.run_impl('clip_numeric.py', {'sens': cases, 'step': []}, timeout=7200)['sens']
     for c, r in zip(cases, res):
         ctx.case(c, nontrivial=(r.get('delta') or 0) > 0.5 * (r.get('bound') or 1e99), kind='sens/%s/%s' % (c['clipping'], c['model']))
+        if r['error'] and 'Parameter tying is not supported with Ghost Clipping' in r['error']:
+            ctx.dist['sens/refused-tying'] = ctx.dist.get('sens/refused-tying', 0) + 1      # the mode refuses the model: nothing is released
+            continue
         if r['error']:
             ctx.fail('sens-harness-error', r['error'], c)
         for b in r['bad'][:1]:
